@@ -213,8 +213,14 @@ Outcome(x, kind, dev) == IF x.flavour = "static" THEN StaticOutcome(x, kind, dev
 
 \* the root fields the executor of the case looks at
 ExecFields(x, doc) == IF x.op = "subscription" THEN DirectFields(doc) ELSE RootFields(x, doc)
+\* response keys the substituted EmptyMutation root collects: a fragment on the real mutation type does not apply to it
+EmptyRootKeys(x, doc) == LET g == Collect(CtxOf(x, doc), "EmptyMutation", doc.ops[1].sels, 1, <<>>, {}).g IN {g[i].key : i \in 1..Len(g)}
 Outcomes(x, doc, dev) == LET fs == ExecFields(x, doc) IN
-  [i \in 1..Len(fs) |-> [key |-> fs[i].key, kind |-> KindOfName(x.op, fs[i].name), out |-> Outcome(x, KindOfName(x.op, fs[i].name), dev)]]
+  [i \in 1..Len(fs) |->
+     LET kind == KindOfName(x.op, fs[i].name)
+         base == Outcome(x, kind, dev)
+     IN [key |-> fs[i].key, kind |-> kind,
+         out |-> IF base = "typenameEmptyMutation" /\ fs[i].key \notin EmptyRootKeys(x, doc) THEN "skip" ELSE base]]
 
 \* Upper bounds used to decide whether an observation is explained by a set of deviations:
 MayServeO(o) == {o[i].key : i \in {j \in 1..Len(o) : o[j].out = "meta"}}
